@@ -410,9 +410,10 @@ pub fn ast_nodes(text: &str, config: &Config) -> Option<Vec<(String, usize, usiz
             visit::walk_expr(self, e);
         }
     }
-    with_crate(text, config, |krate, _ctx| {
+    with_crate(text, config, |krate, ctx| {
         let mut v = V {
-            base: krate.spans.inner_span.lo().0,
+            // byte position of the start of the file (inner_span starts at the first token)
+            base: ctx.snippet_provider.start_pos().0,
             out: Vec::new(),
             parent: Vec::new(),
         };
